@@ -1,0 +1,139 @@
+//go:build verif
+
+package command
+
+import (
+	"errors"
+	"net"
+	"os"
+
+	"github.com/spf13/cobra"
+	"github.com/v-byte-cpu/sx/pkg/ip"
+	"github.com/v-byte-cpu/sx/pkg/scan"
+)
+
+// Add-only access for the verification harness (property C17: interface / source selection).
+// Nothing here decides anything: the functions only build the real option structs from an
+// argv-like flag list with the real flag definitions and call the real unexported code.
+
+// VerifC17Result is what the option code decided.
+type VerifC17Result struct {
+	Err        error
+	ErrClass   string // "", "srciface", "srcip", "srcmac", "nodstip", "other"
+	IfaceIndex int
+	IfaceName  string
+	IfaceMAC   net.HardwareAddr
+	SrcIP      net.IP           // scan.Range.SrcIP as is (nil stays nil)
+	SrcMAC     net.HardwareAddr // scan.Range.SrcMAC as is (nil stays nil)
+	VPNMode    bool
+	GatewayMAC net.HardwareAddr
+	DstNil     bool // no destination subnet (targets come from a file)
+	DstIP      net.IP
+	DstMask    net.IPMask
+}
+
+func verifC17ErrClass(err error) string {
+	switch {
+	case err == nil:
+		return ""
+	case errors.Is(err, errSrcInterface):
+		return "srciface"
+	case errors.Is(err, errSrcIP):
+		return "srcip"
+	case errors.Is(err, errSrcMAC):
+		return "srcmac"
+	case errors.Is(err, errNoDstIP):
+		return "nodstip"
+	}
+	return "other"
+}
+
+func (res *VerifC17Result) fill(r *scan.Range, err error) {
+	res.Err, res.ErrClass = err, verifC17ErrClass(err)
+	if err != nil || r == nil {
+		return
+	}
+	if r.Interface != nil {
+		res.IfaceIndex, res.IfaceName, res.IfaceMAC = r.Interface.Index, r.Interface.Name, r.Interface.HardwareAddr
+	}
+	res.SrcIP, res.SrcMAC = r.SrcIP, r.SrcMAC
+	if r.DstSubnet == nil {
+		res.DstNil = true
+	} else {
+		res.DstIP, res.DstMask = r.DstSubnet.IP, r.DstSubnet.Mask
+	}
+}
+
+// VerifC17ScanRange: the flag set of packetScanCmdOpts (arp command), parseRawOptions,
+// ip.ParseIPNet on the positional argument (as the arp command does) and getScanRange.
+func VerifC17ScanRange(argv []string) (res VerifC17Result) {
+	var opts packetScanCmdOpts
+	cmd := &cobra.Command{Use: "verif"}
+	opts.initCliFlags(cmd)
+	if err := cmd.ParseFlags(argv); err != nil {
+		res.Err, res.ErrClass = err, "other"
+		return
+	}
+	args := cmd.Flags().Args()
+	var dst *net.IPNet
+	if len(args) > 0 {
+		var err error
+		if dst, err = ip.ParseIPNet(args[0]); err != nil {
+			res.Err, res.ErrClass = err, "other"
+			return
+		}
+	}
+	if err := opts.parseRawOptions(); err != nil {
+		res.Err, res.ErrClass = err, "other"
+		return
+	}
+	r, err := opts.getScanRange(dst)
+	res.fill(r, err)
+	return
+}
+
+// VerifC17IPScan: the flag set of ipScanCmdOpts (icmp, tcp, udp commands), parseRawOptions and
+// parseOptions exactly as those commands call them. The ARP cache is read from arpCacheFile
+// (pass --arp-cache; os.DevNull is used when the flag is absent so that stdin is never read).
+func VerifC17IPScan(argv []string) (res VerifC17Result) {
+	var opts ipScanCmdOpts
+	cmd := &cobra.Command{Use: "verif"}
+	opts.initCliFlags(cmd)
+	if err := cmd.ParseFlags(argv); err != nil {
+		res.Err, res.ErrClass = err, "other"
+		return
+	}
+	if len(opts.arpCacheFile) == 0 {
+		opts.arpCacheFile = os.DevNull
+	}
+	if err := opts.parseRawOptions(); err != nil {
+		res.Err, res.ErrClass = err, "other"
+		return
+	}
+	err := opts.parseOptions("verif", cmd.Flags().Args())
+	res.fill(opts.scanRange, err)
+	if err == nil {
+		res.VPNMode, res.GatewayMAC = opts.vpnMode, opts.gatewayMAC
+	}
+	return
+}
+
+// VerifC17RunARP runs the real `arp` command with the given arguments (it sends frames when the
+// options are accepted) and returns its error.
+func VerifC17RunARP(argv []string) error {
+	cmd := newARPCmd().cmd
+	cmd.SetArgs(argv)
+	cmd.SilenceUsage, cmd.SilenceErrors = true, true
+	return cmd.Execute()
+}
+
+// VerifC17RunCommand runs any sx command line (e.g. "icmp", "--iface", "x", "10.0.0.1").
+func VerifC17RunCommand(argv []string) error {
+	cmd := newRootCmd("verif")
+	cmd.SetArgs(argv)
+	cmd.SilenceUsage, cmd.SilenceErrors = true, true
+	return cmd.Execute()
+}
+
+// VerifC17ErrClass classifies an error returned by the two Run functions.
+func VerifC17ErrClass(err error) string { return verifC17ErrClass(err) }
